@@ -258,7 +258,16 @@ func genS(prop string) func(r *sim.Rng, tier string) any {
 				p.Faults = append(p.Faults, refagent.PeerFault{At: -1, OnKind: "list", Nth: r.Intn(8), Fault: refagent.ActPrefix + role})
 			}
 		}
-		if prop == "C10" && r.Bool(0.2) {
+		slowC08 := prop == "C08" && r.Bool(0.12)
+		if slowC08 {
+			// a raw relay that the underlying agent answers late (but honestly), then the lock discipline: whatever the
+			// shim did about the late answer, a wrong passphrase must not unlock and the right one must
+			pw := pick(r, []string{"pw1", "secret", "p w"})
+			p.Steps = append(p.Steps, SStep{Op: "forward", N: int64(pick(r, []int{26, 20, 200})), Arg: pick(r, []string{"", "short", "x"})},
+				SStep{Op: "lock", Arg: pw}, SStep{Op: "list"}, SStep{Op: "unlock", Arg: pw + "-wrong"}, SStep{Op: "list"},
+				SStep{Op: "unlock", Arg: pw}, SStep{Op: "list"})
+		}
+		if prop == "C10" && r.Bool(0.2) || slowC08 {
 			// an underlying agent that is merely slow (touch or PIN prompt): no fault, the reply is honest. Such
 			// plans carry no time boundaries, so that it does not matter when within the slow call the clock is read.
 			for i := range p.Certs {
@@ -281,6 +290,15 @@ func genS(prop string) func(r *sim.Rng, tier string) any {
 			for i := 0; i < r.Range(1, 3); i++ {
 				p.Faults = append(p.Faults, refagent.PeerFault{At: -1, OnKind: pick(r, []string{"raw", "raw", "raw", "sign", "list", "add", "remove", "ext", "lock"}),
 					Nth: r.Intn(3), Fault: fmt.Sprintf("%s%d", refagent.SlowPrefix, pick(r, []int{1, 9, 11, 29, 31, 61, 301, 3601, 86401}))})
+			}
+			if slowC08 {
+				nraw := 0
+				for _, st := range p.Steps {
+					if st.Op == "forward" {
+						nraw++
+					}
+				}
+				p.Faults = []refagent.PeerFault{{At: -1, OnKind: "raw", Nth: nraw - 1, Fault: fmt.Sprintf("%s%d", refagent.SlowPrefix, pick(r, []int{4, 6, 11, 31, 61, 3601}))}}
 			}
 		}
 		if (prop == "C10" || prop == "C07") && r.Bool(0.3) {
